@@ -495,15 +495,18 @@ class CooperativeAwarenessMessage:
         dict
             Position confidence ellipse value.
         """
+        # SemiAxisLength: 4094 = outOfRange (>= 40.94 m), 4095 = unavailable
+        epx_cm = min(int(epx * 100), 4094)
+        epy_cm = min(int(epy * 100), 4094)
         position_confidence_ellipse = {
-            "semiMajorAxisLength": int(epx * 100),
-            "semiMinorAxisLength": int(epy * 100),
+            "semiMajorAxisLength": epx_cm,
+            "semiMinorAxisLength": epy_cm,
             "semiMajorAxisOrientation": 0,
         }
         if epy >= epx:
             position_confidence_ellipse = {
-                "semiMajorAxisLength": int(epy * 100),
-                "semiMinorAxisLength": int(epx * 100),
+                "semiMajorAxisLength": epy_cm,
+                "semiMinorAxisLength": epx_cm,
                 "semiMajorAxisOrientation": 0,
             }
         return position_confidence_ellipse
